@@ -292,6 +292,10 @@ class Unit:
             else:
                 ex.heap[attr] = z3.Store(h, base.t, ex.z(v))
             return
+        setter = self.contract.calls.get("set:%s.%s" % (base.cls, attr.split(".")[-1]))
+        if setter is not None and setter.kind == "custom":
+            # a store whose meaning depends on the stored value / the object's type (contract-supplied handler)
+            return setter.handler(ex, None, [base, v], {})
         raise GenError("attribute store on ref %s.%s" % (base.cls, attr))
 
     def ref_setitem(self, ex, base, idx, v):
